@@ -90,9 +90,48 @@ def run(ctx: Ctx):
             hist = [{"src": s2, "args": a2, "name": "h%d" % j} for j, (s2, a2) in enumerate(rng.choice(others) for _ in range(rng.randrange(0, 4)))]
             rej_plans.append((hs, rng.randrange(10 ** 6), hist + [{"src": src, "args": args, "name": "r", "report": True}], (ri, exc)))
 
+    # verdict stability of overlap-heavy clause sets (greedy priorities, regex alternations: where set / id() order could decide)
+    from . import c09
+    vplans = []
+    vsrcs = []
+    for vi in range(24 if quick else 200):
+        prog, flat = c09.overlapping_case(rng, greedy=rng.random() < 0.75)
+        if rng.random() < 0.5:
+            # three arms that can finish together, one unique top priority and ties below it
+            for cl in prog.body[0].body[0].clauses if prog.body[0].kind == "loop" else []:
+                cl.prio = rng.choice([1, 1, 2])
+        vsrcs.append((gen.prog_src(prog), prog.args))
+    # several arms finishing together: one unique top priority, ties among the losers (the order in which the finishing arms are
+    # visited must not matter)
+    letters = "abcdefghijklmnopqrstuvwxyz"
+    for ti in range(6 if quick else 40):
+        c1, c2, x1, y1, d1, e1 = rng.sample(letters, 6)
+        arms = ["/[%s%s][%s%s]/" % (c1, x1, c2, y1), "/%s[%s%s0-9]/" % (c1, c2, d1), "/[%s%s0-9]%s/" % (c1, e1, c2)]
+        rng.shuffle(arms)
+        low = rng.choice([0, 1])
+        body = "".join("  prio %d %s -> {\n   kind = %d;\n  }\n" % (low, a, i + 1) for i, a in enumerate(arms))
+        body += "  prio %d \"%s%s\" -> {\n   kind = 9;\n  }\n" % (low + rng.choice([1, 2]), c1, c2)
+        vsrcs.append(("out int kind = 0;\nparser {\n greedy case {\n" + body + " }\n \";\";\n}\n", []))
+    for src, args in vsrcs:
+        for k in range(4):
+            hs = 0 if k == 0 else rng.randrange(1, 10 ** 6)
+            hist = [{"src": s2, "args": a2, "name": "h%d" % j} for j, (s2, a2) in enumerate(rng.choice(vsrcs) for _ in range(rng.randrange(0, 3)))] if k >= 2 else []
+            vplans.append((hs, rng.randrange(10 ** 6) if k else None, hist + [{"src": src, "args": args, "name": "v", "report": True}], src))
     with ThreadPoolExecutor(max_workers=6) as ex:
         outs = list(ex.map(lambda pl: worker(pl[2], pl[0], pl[1]), plans))
+        vouts = list(ex.map(lambda pl: worker(pl[2], pl[0], pl[1]), vplans))
         rej_outs = list(ex.map(lambda pl: worker(pl[2], pl[0], pl[1]), rej_plans))
+    verd = {}
+    for (hs, pre, jobs, src), out in zip(vplans, vouts):
+        verd.setdefault(src, []).append((out[0]["status"], out[0]["exc_type"], hs, len(jobs) - 1))
+    for src, lst in verd.items():
+        ctx.evaluations += 1
+        ctx.count("verdict_only_programs")
+        ctx.nontrivial(("verdict", src))
+        if len({(a, b) for a, b, _, _ in lst}) > 1:
+            ctx.violation("c20:verdict-differs:clause-set", "same source and options, different verdicts across processes: %s" % lst,
+                          {"nmfu_source": src, "nmfu_args": jobs[-1]["args"], "verdicts": lst})
+    ctx.count("worker_processes", len(vplans))
     ctx.count("worker_processes", len(plans) + len(rej_plans))
     ctx.count("compilations_in_workers", sum(len(pl[2]) for pl in plans) + sum(len(pl[2]) for pl in rej_plans))
 
